@@ -671,10 +671,23 @@ pub fn chain_cond(g: &mut TypedGen, o: &mut ChainOpts) -> GExpr {
         // the action and its groups (the hierarchy of `action` is data of the store, too)
         let acts: Vec<Uid> = g.schema.actions.iter().map(|a| a.uid()).collect();
         let a = g.rng.pick_clone(&acts);
-        return match g.rng.below(4) {
+        return match g.rng.below(6) {
             0 => {
                 o.shape("use:action-eq");
                 GExpr::eq(GExpr::Var(Var::Action), GExpr::Ent(a))
+            }
+            4 | 5 => {
+                // an action LITERAL on the left of `in` (its own action or, usually, another one): only the
+                // request's own action is in the slice, so a level checker must refuse other literals here
+                o.shape("use:action-literal-in");
+                let b = g.rng.pick_clone(&acts);
+                let lhs = if g.rng.chance(1, 4) { GExpr::ite(GExpr::Bool(true), GExpr::Ent(a), GExpr::Var(Var::Action)) } else { GExpr::Ent(a) };
+                if g.rng.bool() {
+                    GExpr::bin(BinOp::In, lhs, GExpr::Ent(b))
+                } else {
+                    let c2 = g.rng.pick_clone(&acts);
+                    GExpr::bin(BinOp::In, lhs, GExpr::Set(vec![GExpr::Ent(b), GExpr::Ent(c2)]))
+                }
             }
             1 => {
                 o.shape("use:action-in-set");
